@@ -85,7 +85,7 @@ func (s *Subscription) VerifReady() bool {
 		if len(next.Events) > 0 {
 			// the filter of Subscription.Next: batches the snapshot already contains are skipped
 			ev := newEventFromBatch(s.req, next.Events)
-			if !(ev.Index > 0 && ev.Index <= s.snapshotIndex && !ev.IsFramingEvent()) {
+			if !(ev.Index > 0 && ev.Index < s.snapshotIndex && !ev.IsFramingEvent()) {
 				return true
 			}
 		}
